@@ -43,6 +43,47 @@ func sqrtRat(a num) float64 { return f64(sqrtBig(a)) }
 
 // ---------------------------------------------------------------- domain facts
 
+// scaleOf is maxAbs over every coordinate of g, without allocating.
+func scaleOf(g orb.Geometry) float64 {
+	switch v := g.(type) {
+	case orb.Point:
+		return math.Max(math.Abs(v[0]), math.Abs(v[1]))
+	case orb.MultiPoint:
+		return maxAbs(v)
+	case orb.LineString:
+		return maxAbs(v)
+	case orb.Ring:
+		return maxAbs(v)
+	case orb.Bound:
+		return maxAbs([]orb.Point{v.Min, v.Max})
+	case orb.MultiLineString:
+		m := 0.0
+		for _, l := range v {
+			m = math.Max(m, maxAbs(l))
+		}
+		return m
+	case orb.Polygon:
+		m := 0.0
+		for _, r := range v {
+			m = math.Max(m, maxAbs(r))
+		}
+		return m
+	case orb.MultiPolygon:
+		m := 0.0
+		for _, p := range v {
+			m = math.Max(m, scaleOf(p))
+		}
+		return m
+	case orb.Collection:
+		m := 0.0
+		for _, x := range v {
+			m = math.Max(m, scaleOf(x))
+		}
+		return m
+	}
+	return 0
+}
+
 // maxAbs is the coordinate scale of a point list.
 func maxAbs(ps []orb.Point) float64 {
 	m := 0.0
@@ -65,23 +106,33 @@ func lowBitExp(v float64) int {
 // (no under/overflow in the stated domain), so exactness arguments made for the integer lattice
 // hold verbatim for its 2^k rescalings; this test is what makes the tolerances scale-free.
 func isLattice(ps []orb.Point, lim float64) bool {
+	_, ok := latticeUnit(ps, lim)
+	return ok
+}
+
+// latticeUnit returns e such that every coordinate is an integer multiple of 2^e with
+// |v| / 2^e <= lim (ok = false if there is no such e; all-zero input gives e = 0).
+func latticeUnit(ps []orb.Point, lim float64) (e int, ok bool) {
 	minE, maxV := math.MaxInt32, 0.0
 	for _, p := range ps {
 		for k := 0; k < 2; k++ {
 			if p[k] == 0 {
 				continue
 			}
-			if e := lowBitExp(p[k]); e < minE {
-				minE = e
+			if x := lowBitExp(p[k]); x < minE {
+				minE = x
 			}
 			maxV = math.Max(maxV, math.Abs(p[k]))
 		}
 	}
 	if maxV == 0 {
-		return true
+		return 0, true
 	}
-	return math.Ldexp(maxV, -minE) <= lim
+	return minE, math.Ldexp(maxV, -minE) <= lim
 }
+
+// scaleExp: a * 2^e, exactly.
+func scaleExp(a num, e int) num { return zero().SetMantExp(a, e) }
 
 // ---------------------------------------------------------------- rings
 
@@ -116,6 +167,41 @@ func ringMeasure(r orb.Ring) ringM {
 	if n == 0 {
 		return m
 	}
+	if e, ok := latticeUnit(r, 1<<20); ok {
+		// integer fast path for lattice rings: the same exact quantities as ringMeasureSlow (cross-checked
+		// by TestSelfFastPath and, against the int64 oracle, by TestEnumRings), with
+		// int64 cross products (|u|,|v| < 2^21 -> |cross| < 2^43, |sum| < 2^63 for n <= 2^20) and
+		// big.Int accumulation of the centroid numerators, then scaled back by the unit 2^e
+		ix := func(v float64) int64 { return int64(math.Ldexp(v, -e)) }
+		ox, oy := ix(r[0][0]), ix(r[0][1])
+		var twoA int64
+		nx, ny, t := new(big.Int), new(big.Int), new(big.Int)
+		for i := 0; i < n; i++ {
+			j := (i + 1) % n
+			ui, vi := ix(r[i][0])-ox, ix(r[i][1])-oy
+			uj, vj := ix(r[j][0])-ox, ix(r[j][1])-oy
+			cr := ui*vj - uj*vi
+			twoA += cr
+			nx.Add(nx, t.Mul(big.NewInt(ui+uj), big.NewInt(cr)))
+			ny.Add(ny, t.Mul(big.NewInt(vi+vj), big.NewInt(cr)))
+		}
+		m.area = scaleExp(zero().SetInt64(twoA), 2*e-1)
+		if twoA != 0 {
+			three := zero().SetInt64(3 * twoA)
+			cx := radd(scaleExp(rquo(zero().SetInt(nx), three), e), rat(r[0][0]))
+			cy := radd(scaleExp(rquo(zero().SetInt(ny), three), e), rat(r[0][1]))
+			m.cRat = [2]num{cx, cy}
+			m.cx, m.cy = f64(cx), f64(cy)
+		}
+		m.tolA, m.errA, m.tolC = ringTol(r, f64(m.area), [2]float64{m.cx, m.cy})
+		return m
+	}
+	return ringMeasureSlow(r, m)
+}
+
+// ringMeasureSlow: the 256-bit path (any finite input).
+func ringMeasureSlow(r orb.Ring, m ringM) ringM {
+	n := len(r)
 	ox, oy := rat(r[0][0]), rat(r[0][1])
 	us := make([]num, n)
 	vs := make([]num, n)
@@ -246,11 +332,56 @@ func allPoints(g orb.Geometry) []orb.Point {
 // lineAcc: length (256-bit square roots) and length-weighted sum of segment midpoints.
 func lineAcc(ls []orb.Point) (L, mx, my num) {
 	L, mx, my = zero(), zero(), zero()
+	if e, ok := latticeUnit(ls, 1<<20); ok {
+		// integer fast path for long lattice lines: squared segment lengths are exact int64; the 256-bit
+		// square root is taken once per distinct squared length
+		ix := func(v float64) int64 { return int64(math.Ldexp(v, -e)) }
+		var roots map[int64]num
+		for i := 0; i+1 < len(ls); i++ {
+			ax, ay, bx, by := ix(ls[i][0]), ix(ls[i][1]), ix(ls[i+1][0]), ix(ls[i+1][1])
+			var d num
+			switch {
+			case by == ay: // axis-parallel: exact, no square root
+				d = zero().SetInt64(max(bx-ax, ax-bx))
+			case bx == ax:
+				d = zero().SetInt64(max(by-ay, ay-by))
+			default:
+				dd := (bx-ax)*(bx-ax) + (by-ay)*(by-ay)
+				if roots == nil {
+					roots = map[int64]num{}
+				}
+				var seen bool
+				if d, seen = roots[dd]; !seen {
+					d = sqrtBig(zero().SetInt64(dd))
+					roots[dd] = d
+				}
+			}
+			L.Add(L, d)
+			mx.Add(mx, rmul(zero().SetInt64(ax+bx), d))
+			my.Add(my, rmul(zero().SetInt64(ay+by), d))
+		}
+		// lengths scale by 2^e, midpoint sums by 2^e / 2, their products by 2^(2e-1)
+		return scaleExp(L, e), scaleExp(mx, 2*e-1), scaleExp(my, 2*e-1)
+	}
+	return lineAccSlow(ls)
+}
+
+// lineAccSlow: the 256-bit path (any finite input).
+func lineAccSlow(ls []orb.Point) (L, mx, my num) {
+	L, mx, my = zero(), zero(), zero()
 	half := frac(1, 2)
 	for i := 0; i+1 < len(ls); i++ {
 		ax, ay, bx, by := rat(ls[i][0]), rat(ls[i][1]), rat(ls[i+1][0]), rat(ls[i+1][1])
 		dx, dy := rsub(bx, ax), rsub(by, ay)
-		d := sqrtBig(radd(rmul(dx, dx), rmul(dy, dy)))
+		var d num
+		switch {
+		case dy.Sign() == 0:
+			d = rabs(dx) // axis-parallel: the length is exact, no square root
+		case dx.Sign() == 0:
+			d = rabs(dy)
+		default:
+			d = sqrtBig(radd(rmul(dx, dx), rmul(dy, dy)))
+		}
 		L.Add(L, d)
 		mx.Add(mx, rmul(rmul(radd(ax, bx), half), d))
 		my.Add(my, rmul(rmul(radd(ay, by), half), d))
@@ -349,13 +480,7 @@ func polygonMeasure(p orb.Polygon, scale float64) (measure, error) {
 
 // measureOf is the model of CentroidArea / Area / Length.
 func measureOf(g orb.Geometry) (measure, error) {
-	m, err := measureOf0(g)
-	m.exactArea = isLattice(allPoints(g), 1<<20)
-	return m, err
-}
-
-func measureOf0(g orb.Geometry) (measure, error) {
-	scale := maxAbs(allPoints(g))
+	scale := scaleOf(g)
 	switch v := g.(type) {
 	case orb.Point:
 		return measure{dim: 0, area: zero(), c: [2]float64{v[0], v[1]}, cOK: true, tolC: 0, scale: scale}, nil
@@ -426,7 +551,7 @@ func measureOf0(g orb.Geometry) (measure, error) {
 			out.errA += m.errA
 			out.length += m.length
 		}
-		weighted(&out, ms)
+		weighted(&out, ms, v)
 		return out, nil
 	case orb.Collection:
 		out := measure{dim: dimOf(v), area: zero(), scale: scale}
@@ -448,7 +573,7 @@ func measureOf0(g orb.Geometry) (measure, error) {
 		// the centroid of a collection is asserted when its top dimension is 2 and the (signed) areas
 		// of its top-dimensional members do not sum to zero: sum(a_i * c_i) / sum(a_i), in any order
 		if out.dim == 2 {
-			weighted(&out, ms)
+			weighted(&out, ms, v)
 		}
 		return out, nil
 	}
@@ -456,7 +581,7 @@ func measureOf0(g orb.Geometry) (measure, error) {
 }
 
 // weighted sets the area-weighted centroid of out from members with exact centroids.
-func weighted(out *measure, ms []measure) {
+func weighted(out *measure, ms []measure, g orb.Geometry) {
 	if out.area.Sign() == 0 {
 		return
 	}
@@ -475,7 +600,6 @@ func weighted(out *measure, ms []measure) {
 	}
 	kappa := sumAbs / at
 	tol := 1e-9 * out.scale * kappa
-	lattice := true
 	for _, m := range ms {
 		if m.area.Sign() == 0 {
 			continue
@@ -483,15 +607,12 @@ func weighted(out *measure, ms []measure) {
 		nx.Add(nx, rmul(m.area, m.cRat[0]))
 		ny.Add(ny, rmul(m.area, m.cRat[1]))
 		tol += math.Abs(f64(m.area))/at*m.tolC + 2*m.errA*(out.scale+math.Abs(m.c[0])+math.Abs(m.c[1]))/at
-		if m.errA != 0 && !m.exactArea {
-			lattice = false
-		}
 	}
 	out.cRat = [2]num{rquo(nx, out.area), rquo(ny, out.area)}
 	out.c = [2]float64{f64(out.cRat[0]), f64(out.cRat[1])}
 	out.cOK = true
 	out.tolC = tol
-	if kappa > 1e6 && !lattice {
+	if kappa > 1e6 && !isLattice(allPoints(g), 1<<20) {
 		// float members whose signed areas cancel to less than 1e-6 of their sum: the float total orb
 		// divides by is dominated by the members' own rounding; not asserted (as for a single ring)
 		out.tolC = math.Inf(1)
@@ -529,6 +650,37 @@ func ptDistSq(a, p orb.Point) num {
 
 // lineDists: exact squared distance to every listed segment of a vertex list.
 func lineDists(ls []orb.Point, p orb.Point) (ds []num, interior []bool) {
+	if e, ok := latticeUnit(append([]orb.Point{p}, ls...), 1<<20); ok {
+		// integer fast path for lattice lines: the same exact squared distances as segDistSq (cross-checked
+		// by TestSelfFastPath);
+		// |differences| < 2^22, so dots and squared lengths fit int64 and only cross^2 / len^2 needs big
+		ix := func(v float64) int64 { return int64(math.Ldexp(v, -e)) }
+		qx, qy := ix(p[0]), ix(p[1])
+		ds = make([]num, 0, len(ls))
+		interior = make([]bool, 0, len(ls))
+		for i := 0; i+1 < len(ls); i++ {
+			ax, ay := ix(ls[i][0]), ix(ls[i][1])
+			dx, dy := ix(ls[i+1][0])-ax, ix(ls[i+1][1])-ay
+			px, py := qx-ax, qy-ay
+			dd := dx*dx + dy*dy
+			dot := px*dx + py*dy
+			var d num
+			in := false
+			switch {
+			case dd == 0 || dot <= 0:
+				d = zero().SetInt64(px*px + py*py)
+			case dot >= dd:
+				d = zero().SetInt64((px-dx)*(px-dx) + (py-dy)*(py-dy))
+			default:
+				cr := zero().SetInt64(px*dy - py*dx)
+				d = rquo(rmul(cr, cr), zero().SetInt64(dd))
+				in = true
+			}
+			ds = append(ds, scaleExp(d, 2*e))
+			interior = append(interior, in)
+		}
+		return
+	}
 	for i := 0; i+1 < len(ls); i++ {
 		d, in := segDistSq(ls[i], ls[i+1], p)
 		ds = append(ds, d)
